@@ -12,7 +12,7 @@ from ..spaces import prog_of, shard_iter
 from .c03 import down_closed_sets
 
 ID = "C13"
-BUDGET = {"quick": 100, "thorough": 600}
+BUDGET = {"quick": 240, "thorough": 600}
 
 
 def cases(tier: str):
